@@ -628,7 +628,8 @@ theorem propAbort_just (s : Sys) (id : PropId) (p : Proposal) (hp : s.prop? id =
     ∀ e ∈ (propAbort s p).effects, Just s e := by
   intro e he
   unfold propAbort at he
-  cases hab : p.abort <;> simp only [hab] at he <;> try (simp [Plan.nop] at he)
+  cases hab : p.abort <;> simp only [hab] at he <;>
+    try (first | (simp [Plan.nop] at he; done) | (split at he <;> simp [Plan.nop] at he; done))
   cases hc : s.cfg? p.target with
   | none => simp [hc, Plan.nop] at he
   | some c =>
@@ -698,6 +699,8 @@ theorem propApply_just (s : Sys) (id : PropId) (p : Proposal) (hp : s.prop? id =
            · subst he
              first | exact hdone _ (Or.inl ⟨_, rfl⟩) | exact hdone _ (Or.inr ⟨_, _, rfl⟩))
   · -- APPLIED
+    split at he <;> simp [Plan.nop] at he
+  · -- apply FAILED (same requeue)
     split at he <;> simp [Plan.nop] at he
 
 theorem prop_plan_just (s : Sys) (id : PropId) (env : Env) :
